@@ -32,9 +32,8 @@ func VH_C18_smgp_receipt() {
 			}
 		} else {
 			v = vString(vIdx("v", k), vl)
-			vAssume(vAllInRange(v, 0x21, 0x7e))
-			for j := 0; j < len(v); j++ {
-				vAssume(v[j] != ':')
+						for j := 0; j < len(v); j++ {
+				vAssume(vAnd(v[j] != ':', v[j] != ' ')) // any octet (also NUL, invalid UTF-8) but space and colon
 			}
 		}
 		vals[k] = v
